@@ -187,10 +187,12 @@ class Slicer:
     captures to the enclosing body).  Atoms: 'field:Owner::name', 'call:<callee>', 'const:<text>', 'arg:<n>:<name>',
     'binop:<op>'."""
 
-    def __init__(self, world, stop_calls=None, through_calls=True):
+    def __init__(self, world, stop_calls=None, through_calls=True, into_callees=0):
         self.w = world
         self.stop_calls = stop_calls
         self.through_calls = through_calls
+        self.into_callees = into_callees   # inlining depth for return-value provenance of in-repo callees
+        self._depth = 0
 
     def atoms(self, body, op, seen=None, out=None):
         if out is None:
@@ -250,6 +252,14 @@ class Slicer:
                     out.add("call:" + s["f"])
                     if s.get("ft") and s["ft"] != s["f"]:
                         out.add("call:" + s["ft"])
+                    if self.into_callees > self._depth:
+                        tg = [s["f"]] + closure_args(body, s)
+                        for cid in tg:
+                            cb = self.w.bodies.get(cid)
+                            if cb is not None:
+                                self._depth += 1
+                                self._local(cb, 0, seen, out)
+                                self._depth -= 1
                     if self.through_calls and not (self.stop_calls and callee_matches(s, self.stop_calls)):
                         for a in s["args"]:
                             self.atoms(body, a, seen, out)
@@ -479,3 +489,119 @@ def closure_args(body, t):
         if ty.get("k") in ("closure", "coroutine") and ty.get("def"):
             out.append(ty["def"])
     return out
+
+
+# ---------------------------------------------------------------- closures <-> parents
+
+def lift_to_parent(world, body):
+    """for a closure body: (parent body, block in the parent where the closure value is handed to a call, that call)
+    or (parent, construction block, None) when it is only constructed there"""
+    if not body.parent or body.parent not in world.bodies:
+        return None
+    par = world.bodies[body.parent]
+    for bb, t in par.calls():
+        if body.id in closure_args(par, t):
+            return par, bb, t
+    for bb, i, d in closures_built(par):
+        if d == body.id:
+            return par, bb, None
+    return None
+
+
+def dominated_in_family(world, body, bb, edges=(), blocks=(), root=None, pred=None):
+    """Is block bb of `body` dominated by one of the given (body_id, edge)/(body_id, block) guards, looking through
+    the closure nesting: a site inside a closure passed to a call in the parent is dominated when that call block is.
+    edges / blocks: lists of (body_id, x)."""
+    cur, cbb = body, bb
+    for _ in range(8):
+        es = [e for bid, e in edges if bid == cur.id]
+        bs = [b for bid, b in blocks if bid == cur.id]
+        if (es or bs) and cur.dominated_by_any(cbb, blocks=bs, edges=es):
+            return True
+        up = lift_to_parent(world, cur)
+        if up is None:
+            return False
+        cur, cbb, _ = up
+    return False
+
+
+def path_counts(body, start, is_hit, stop_blocks=None):
+    """(min, max) number of blocks satisfying is_hit on any acyclic normal path from `start` to a Return
+    (panicking ends ignored; back edges cut).  Returns None if no path reaches a Return."""
+    memo = {}
+    onstack = set()
+
+    def rec(b):
+        if b in memo:
+            return memo[b]
+        if b in onstack:
+            return None
+        onstack.add(b)
+        h = 1 if is_hit(b) else 0
+        t = body.term(b)
+        res = None
+        if t["k"] == "return" or (stop_blocks and b in stop_blocks):
+            res = (h, h)
+        else:
+            lo, hi = None, None
+            for s in body.succ(b):
+                if body.is_cleanup(s):
+                    continue
+                if t["k"] == "yield" and s == t.get("drop"):
+                    continue
+                r = rec(s)
+                if r is None:
+                    continue
+                lo = r[0] if lo is None else min(lo, r[0])
+                hi = r[1] if hi is None else max(hi, r[1])
+            if lo is not None:
+                res = (lo + h, hi + h)
+        onstack.discard(b)
+        memo[b] = res
+        return res
+    return rec(start)
+
+
+def linear(body, op, depth=0):
+    """express an integer operand as (base, k): base = ('arg', n) / ('field', name) / ('const',) ; value = base + k.
+    Recognises overflow-checked `x + c` / `x - c` as MIR builds them.  None if not linear."""
+    if depth > 12:
+        return None
+    c = op_const(op)
+    if c is not None:
+        return (("const",), c.get("v", 0)) if "v" in c else None
+    p = op_place(op)
+    if p is None:
+        return None
+    proj = p.get("p") or []
+    l = p["l"]
+    if proj and len(proj) == 1 and isinstance(proj[0], dict) and proj[0].get("o") == "(tuple)" and proj[0]["i"] == 0:
+        d = single_def(body, l)
+        if d and d[1] != "term" and d[2]["r"]["k"] == "bin" and d[2]["r"]["op"] in ("AddWithOverflow", "SubWithOverflow"):
+            r = d[2]["r"]
+            a = linear(body, r["a"], depth + 1)
+            b = linear(body, r["b"], depth + 1)
+            sign = 1 if r["op"].startswith("Add") else -1
+            if a and b and b[0] == ("const",):
+                return (a[0], a[1] + sign * b[1])
+            if a and b and a[0] == ("const",) and sign == 1:
+                return (b[0], b[1] + a[1])
+        return None
+    if proj:
+        f = place_last_field(p)
+        return (("field", f), 0) if f else None
+    if 1 <= l <= body.argc:
+        return (("arg", l), 0)
+    d = single_def(body, l)
+    if d is None or d[1] == "term":
+        return None
+    r = d[2]["r"]
+    if r["k"] == "use":
+        return linear(body, r["o"], depth + 1)
+    if r["k"] == "bin" and r["op"] in ("Add", "Sub", "AddUnchecked", "SubUnchecked"):
+        a = linear(body, r["a"], depth + 1)
+        b = linear(body, r["b"], depth + 1)
+        sign = 1 if r["op"].startswith("Add") else -1
+        if a and b and b[0] == ("const",):
+            return (a[0], a[1] + sign * b[1])
+    return None
